@@ -27,6 +27,7 @@ type inputString struct {
 	pointer int
 	eof     bool
 	length  int
+	offsets []int // byte offset of every rune in s (lazily computed)
 }
 
 func newInputString(s string) *inputString {
@@ -56,14 +57,16 @@ func (i *inputString) getCurrentAsByte() byte {
 		i.eof = true
 		return 0
 	}
-	// byte offset of the current code point: walk the string the way the []rune conversion did
-	// (an invalid byte became one U+FFFD rune but is one byte long, not RuneLen(U+FFFD) = 3)
-	var pos int
-	for j := 0; j < i.pointer; j++ {
-		_, size := utf8.DecodeRuneInString(i.s[pos:])
-		pos += size
+	// byte offset of the current code point: ranging over the string yields one offset per rune of the
+	// []rune conversion (an invalid byte became one U+FFFD rune but is one byte long, not RuneLen(U+FFFD) = 3).
+	// The offsets are computed once, so that a host of n invalid bytes does not cost O(n^2).
+	if i.offsets == nil {
+		i.offsets = make([]int, 0, i.length)
+		for pos := range i.s {
+			i.offsets = append(i.offsets, pos)
+		}
 	}
-	return i.s[pos]
+	return i.s[i.offsets[i.pointer]]
 }
 
 func (i *inputString) rewindLast() {
